@@ -69,6 +69,14 @@ SUITES = {
         stubs=[],
         replay_bin="kani/nm_impl/replay",
     ),
+    "many_cpus_impl": dict(
+        kind="incrate", package="many_cpus_impl", prefix="pal::linux::cpu_mask::folo_verif_cpu_mask::",
+        sources=["kani/many_cpus_impl/cpu_mask_hooks.rs"],
+        env={"CARGO_PROFILE_DEV_DEBUG_ASSERTIONS": "false"},
+        functions=["many_cpus_impl::pal::linux::cpu_mask::BitPosition::{of,bit,processor_id}", "CpuMask::{with_words,insert,processor_ids,len_bytes,word,eq}"],
+        stubs=[],
+        replay_bin="kani/many_cpus_impl/replay",
+    ),
 }
 
 
@@ -375,7 +383,7 @@ def run_harnesses(harnesses, jobs=10, mem_budget=54, log_dir=None, progress=None
 RE_VEC = re.compile(r"^\s*vec!\[([0-9,\s]*)\],?\s*$")
 
 
-def concrete_playback(h, slot=0, log_dir=None):
+def concrete_playback(h, slot=0, log_dir=None, include_covers=False):
     """Re-run the harness with concrete playback.
 
     Returns ([(kind, description, [byte vectors])...] for every non-cover check Kani generated a
@@ -403,7 +411,7 @@ def concrete_playback(h, slot=0, log_dir=None):
                 if m:
                     vecs.append([int(x) for x in m.group(1).replace(" ", "").split(",") if x != ""])
                 elif "];" in line:
-                    if kind != "cover":
+                    if kind != "cover" or include_covers:
                         tests.append((kind, desc, vecs))
                     vecs = None
                     kind = desc = None
